@@ -716,7 +716,7 @@ func c05Child(r *ev.Run, batch int) {
 			} else {
 				perms = [][]int{p.Perm(len(changes)), p.Perm(len(changes))}
 			}
-			for _, pm := range perms {
+			for pi, pm := range perms {
 				tc, err := c.newCache(st)
 				if err != nil {
 					break
@@ -726,13 +726,29 @@ func c05Child(r *ev.Run, batch int) {
 					ch := changes[i]
 					rc := tc.Table("T")
 					var err error
+					// every other order mixes checked and unchecked calls: a checked call may be
+					// refused while another row still holds the value (then it is repeated
+					// unchecked, as the batch as a whole is legal), and must otherwise leave the
+					// indexes exactly as an unchecked call does
+					checked := pi%2 == 1 && p.Bool()
 					switch {
 					case ch.old == nil:
-						err = rc.Create(ch.uuid, c.m.NewModel("T", ch.uuid, ch.new), false)
+						err = rc.Create(ch.uuid, c.m.NewModel("T", ch.uuid, ch.new), checked)
+						if err != nil && checked {
+							r.Count("checked_calls_refused", 1)
+							err = rc.Create(ch.uuid, c.m.NewModel("T", ch.uuid, ch.new), false)
+						}
 					case ch.new == nil:
 						err = rc.Delete(ch.uuid)
 					default:
-						_, err = rc.Update(ch.uuid, c.m.NewModel("T", ch.uuid, ch.new), false)
+						_, err = rc.Update(ch.uuid, c.m.NewModel("T", ch.uuid, ch.new), checked)
+						if err != nil && checked {
+							r.Count("checked_calls_refused", 1)
+							_, err = rc.Update(ch.uuid, c.m.NewModel("T", ch.uuid, ch.new), false)
+						}
+					}
+					if checked {
+						r.Count("checked_direct_calls", 1)
 					}
 					if err != nil {
 						rep([]finding{{"C05/direct-call-error/" + errClassOf(err.Error()), err.Error()}}, "direct", fmt.Sprint(pm))
